@@ -213,7 +213,7 @@ def structural(name, v0, v1, v2, v3):
     return _expect_reject(go, log)
 
 
-def storage_name(sel, per_output, v0, v1):
+def storage_name(sel, per_output, v0, v1, existing=False):
     """an unknown storage name is rejected; known ones are accepted"""
     L.reset()
     names = ["dict", "file_array", "dict_sub", "nope", "", "File_Array", "dict "]
@@ -228,9 +228,15 @@ def storage_name(sel, per_output, v0, v1):
             p = tmpl.make_pipeline(t.funcs, log)
             folder = L.scratch_dir()
         st = {"": "dict", "y": names[sel]} if per_output else names[sel]
-        run = lambda: p.map({"x": [v0, v1]}, run_folder=folder, storage=st, parallel=False)  # noqa: E731
+        if existing:
+            p.map({"x": [v0, v1]}, run_folder=folder, storage="file_array", parallel=False)
+            with NoTracing():
+                del log[:]
+        run = lambda: p.map({"x": [v0, v1]}, run_folder=folder, storage=st, parallel=False, cleanup=not existing)  # noqa: E731
         if sel >= 3:
-            return _expect_reject(run, log)
+            return _expect_reject(run, log, folder if existing else None)
+        if existing:
+            return True
         res = run()
         ref, _ = tmpl.reference(t.funcs, {"x": [v0, v1]})
         return tmpl.compare_results(t.funcs, res, ref)
@@ -314,6 +320,8 @@ def obligations(tier):
            bounds="three defaults of a shared parameter, unbounded ints; one optionally bound"),
         Ob("storage_name", [("sel", I), ("per_output", Bo), ("v0", I), ("v1", I)], ["0 <= sel <= 6"], "H.storage_name(sel, per_output, v0, v1)", timeout=200,
            flags=("tokpickle",), bounds="storage names from a list of 3 registered and 4 unknown ones, as a string or per output"),
+        Ob("storage_name_existing_folder", [("sel", I), ("per_output", Bo), ("v0", I), ("v1", I)], ["3 <= sel <= 6"], "H.storage_name(sel, per_output, v0, v1, True)",
+           timeout=200, flags=("tokpickle",), bounds="unknown storage name with cleanup=False on an existing run folder: rejected without altering the folder"),
         Ob("executor_without_parallel", [("v0", I), ("v1", I), ("as_dict", Bo)], [], "H.executor_without_parallel(v0, v1, as_dict)", timeout=60,
            bounds="executor given with parallel=False"),
         Ob("internal_shape", [("kind", I), ("v0", I), ("v1", I), ("v2", I)], ["0 <= kind <= 2"], "H.internal_shape_missing(kind, v0, v1, v2)", timeout=120,
